@@ -68,6 +68,9 @@ BRACKET_TEMPLATES = [
     ('[[:digit:]a-f]', S(False, ('p', 'digit'), ('r', 'a', 'f'))),
     ('[![:digit:]a-f]', S(True, ('p', 'digit'), ('r', 'a', 'f'))),
     ('[a-c[:digit:]x-z]', S(False, ('r', 'a', 'c'), ('p', 'digit'), ('r', 'x', 'z'))),
+    # the separator is an ordinary member in file-name mode, escaped or not
+    ('[a\\/]', S(False, ('c', 'a'), ('c', '/'))), ('[!\\/]', S(True, ('c', '/'))), ('[+-\\/]', S(False, ('r', '+', '/'))),
+    ('[[:digit:]\\/]', S(False, ('p', 'digit'), ('c', '/'))), ('[a/]', S(False, ('c', 'a'), ('c', '/'))), ('[/-9]', S(False, ('r', '/', '9'))),
     # a range that ends in a hyphen, followed by another range / a member / a hyphen
     ('[+--b-d]', S(False, ('r', '+', '-'), ('r', 'b', 'd'))), ('[!+--b-d]', S(True, ('r', '+', '-'), ('r', 'b', 'd'))),
     ('[+--ab-d]', S(False, ('r', '+', '-'), ('c', 'a'), ('r', 'b', 'd'))),
@@ -248,7 +251,7 @@ def run(ctx):
             toks = pre + ((bset,) if bset[2] else (('set', False, (('r', 'b', 'a'),), '!'),)) + post
             text = gen.ser(pre) + btext + gen.ser(post)
             for fnames in flagsets(bi):
-                names = ['a', 'b', 'c', 'd', 'e', 'f', 'z', '-', ']', '+', ',', '0', '5', '\\', 'A', 'C', '.', '^', '!']
+                names = ['a', 'b', 'c', 'd', 'e', 'f', 'z', '-', ']', '+', ',', '0', '5', '\\', 'A', 'C', '.', '^', '!', '/', 'a]', '/]', '[]', '[/]']
                 names = [gen.derive(ctx.rng_for('bt', bi), pre, 'x') + n + (gen.derive(ctx.rng_for('bt2', bi), post, 'xy') or '') for n in names] + ['x', 'xy', 'y']
                 with ctx.case(label=(text, fnames)):
                     check_pattern(ctx, toks, fnames, [n for n in names if n], api_sample=True, text=text)
@@ -270,7 +273,9 @@ def run(ctx):
     while k < limit and not ctx.out_of_time():
         k += 1
         rng = ctx.rng_for('rand', ctx.shard, k)
-        alpha = rng.choice(('ab.c', 'ab.', 'aB.x', 'a-]!', 'a.(|', 'a\xe9.\u0416', 'a.\U0001f600\xff'))
+        alpha = rng.choice(('ab.c', 'ab.', 'aB.x', 'a-]!', 'a.(|', 'a\xe9.\u0416', 'a.\U0001f600\xff', 'a^$#', 'a+{}', 'a&~=:'))
+        # characters that mean something in regular expressions but nothing in a wildcard pattern, written unescaped
+        noesc = frozenset('+{}') if alpha == 'a+{}' else frozenset()
         toks = gen.make_fragment(gen.rand_tokens(rng, maxtok=rng.randint(1, 8), depth=rng.randint(0, 3), alpha=alpha), rng)
         if not toks or gen.ambiguous_adjacency(toks) or not gen.in_fragment(toks):
             continue
@@ -279,8 +284,8 @@ def run(ctx):
             if icase and not alpha.isascii():
                 continue    # the property speaks of ASCII case only: non-ASCII letters are exercised in case-sensitive mode
             names = universe(ctx, toks, ('rand', ctx.shard, k), 4, icase)
-            with ctx.case(label=(gen.ser(toks), fnames)):
-                check_pattern(ctx, toks, fnames, names, api_sample=(k % 10 == 0))
+            with ctx.case(label=(gen.ser(toks, noesc), fnames)):
+                check_pattern(ctx, toks, fnames, names, api_sample=(k % 10 == 0), noescape=noesc)
     ctx.count('random_asts', k)
 
 
